@@ -3,6 +3,9 @@
 mod common;
 mod c01;
 mod c02;
+mod c12;
+mod c10;
+mod c09;
 mod c11;
 mod c08;
 
@@ -42,6 +45,9 @@ fn main() {
         let ok = match id.as_str() {
             "C01" => c01::replay(&v["case"]),
             "C02" => c02::replay(&v["case"]),
+            "C12" => c12::replay(&v["case"]),
+            "C10" => c10::replay(&v["case"]),
+            "C09" => c09::replay(&v["case"]),
             "C11" => c11::replay(&v["case"]),
             "C08" => c08::replay(&v["case"]),
             _ => machinery_fail("no replay for this id"),
@@ -58,6 +64,9 @@ fn main() {
     match id.as_str() {
         "C01" => c01::run(run),
         "C02" => c02::run(run),
+        "C12" => c12::run(run),
+        "C10" => c10::run(run),
+        "C09" => c09::run(run),
         "C11" => c11::run(run),
         "C08" => c08::run(run),
         _ => machinery_fail("unknown property id"),
